@@ -194,10 +194,15 @@ func init() {
 		"(github.com/shopspring/decimal.Decimal).String":      uninterp("decimal_String"),
 		"(github.com/shopspring/decimal.Decimal).StringFixed": uninterp("dstringfixed"),
 		"(github.com/shopspring/decimal.Decimal).Float64": func(a *Act, st *State, c *ssa.Function, x []Val, p tokenPos) Val {
-			return Val{Tuple: []Val{{T: x[0].T, Typ: resType(c, 0)}, {T: a.u.D.Fresh("exact", "Bool"), Typ: tBool}}}
+			// decimal -> float64 rounds to the nearest double: an uninterpreted f64 (exact on zero); the second
+			// result says whether the conversion was exact
+			f := a.f64(x[0].T)
+			ex := a.u.D.Fresh("exact", "Bool")
+			a.u.Fact(implies(ex, eq(f, x[0].T)))
+			return Val{Tuple: []Val{{T: f, Typ: resType(c, 0)}, {T: ex, Typ: tBool}}}
 		},
 		"(github.com/shopspring/decimal.Decimal).InexactFloat64": func(a *Act, st *State, c *ssa.Function, x []Val, p tokenPos) Val {
-			return t1(x[0].T, resType(c, 0))
+			return t1(a.f64(x[0].T), resType(c, 0))
 		},
 		"(github.com/shopspring/decimal.Decimal).QuoRem": func(a *Act, st *State, c *ssa.Function, x []Val, p tokenPos) Val {
 			d := a.u.D
@@ -483,4 +488,18 @@ func fprintfIntrinsic(fmtIdx int) intrinsicFn {
 		}
 		return outUnknown(a, st, c, x, p)
 	}
+}
+
+// f64: rounding of an exact (decimal) number to float64 - uninterpreted except that zero stays zero and the
+// sign is kept. float64 arithmetic itself is exact real arithmetic in this model (listed assumption): only
+// the decimal -> float conversions are visible as lossy.
+func (a *Act) f64(x Term) Term {
+	d := a.u.D
+	f := d.Fun("f64", []string{"Real"}, "Real")
+	if !a.u.pureDefined["f64"] {
+		a.u.pureDefined["f64"] = true
+		a.u.Fact(eq(app(f, "0.0"), "0.0"))
+		a.u.Fact(fmt.Sprintf("(forall ((x Real)) (! (and (=> (>= x 0.0) (>= (%s x) 0.0)) (=> (<= x 0.0) (<= (%s x) 0.0))) :pattern ((%s x))))", f, f, f))
+	}
+	return app(f, x)
 }
